@@ -16,7 +16,7 @@ ID = 'C05'
 LEVEL = 'exploration'
 RULE = ('Engine A: lattice of pre-test pairs (x, y): n in {4,5,6,8,12} x 5 control shapes x noise patterns (pairs with zero '
         'residual variance dropped by the reference model and counted) x n_test in {1,2,5} x sig in {0.8,0.9,0.95} x power '
-        'in {0.6,0.8,0.9} x flevel in {0.9,0.99} (quick: the full 54-point parameter grid for noise pattern 0, a 12-point sub-grid for pattern 1), plus parameter objects that differ in fields the formula must ignore (n_pretest_max smaller than the series, iroas, rho_max, min_corr, n_designs, n_geos_max), plus PRESENTATIONS of the same numbers (integer-dtype y with half-integer x, integer x with half-integer y, both integer, lists, pandas Series); on float arrays the caller OVERWRITES his own buffers after handing them in and before the first read. Oracle: (1) design-side required '
+        'in {0.6,0.8,0.9} x flevel in {0.9,0.99}, plus 14 points with lenient levels / low power where the quantile sum is small or negative (quick: the full 54-point parameter grid for noise pattern 0, a 12-point sub-grid for pattern 1), plus parameter objects that differ in fields the formula must ignore (n_pretest_max smaller than the series, iroas, rho_max, min_corr, n_designs, n_geos_max), plus PRESENTATIONS of the same numbers (integer-dtype y with half-integer x, integer x with half-integer y, both integer, lists, pandas Series); on float arrays the caller OVERWRITES his own buffers after handing them in and before the first read. Oracle: (1) design-side required '
         'impact == closed form (t_sig + t_pow) * n_test * sigma * sqrt(phi (n+1)/(n n_test (n-1)) + 1/n + 1/n_test); (2) two '
         'real code paths against each other: an experiment frame whose test-period control mean is displaced by dx = '
         'sqrt(phi (n+1) Sxx / (n n_test (n-1))) and whose treatment shows exactly lift = required impact is analysed by '
@@ -29,6 +29,10 @@ ASSUMPTIONS = ['finite lattice of series; scipy.stats t/F quantiles trusted; com
 PARAMS_ALL = [dict(n_test=nt, sig_level=s, power_level=p, flevel=f) for nt in (1, 2, 5) for s in (0.8, 0.9, 0.95)
               for p in (0.6, 0.8, 0.9) for f in (0.9, 0.99)]
 PARAMS_Q = [PARAMS_ALL[i] for i in (0, 3, 7, 10, 14, 17, 22, 27, 31, 38, 44, 53)]
+# the rest of the documented domain (0, 1) of the two levels: lenient tests and low power, where the two quantiles have
+# opposite signs and their sum may be negative (the identity is algebraic and holds there as well)
+PARAMS_LOW = [dict(n_test=nt, sig_level=s, power_level=p, flevel=0.9) for nt in (1, 3)
+              for s, p in ((0.7, 0.1), (0.6, 0.3), (0.4, 0.5), (0.3, 0.3), (0.9, 0.3), (0.55, 0.5), (0.2, 0.9))]
 
 
 def cases(tier, seed):
@@ -39,6 +43,9 @@ def cases(tier, seed):
                 for amp in (1, 3):
                     for par in (PARAMS_ALL if (tier == 'thorough' or noise == 0) else PARAMS_Q):
                         out.append({'n': n, 'shape': sh, 'noise': noise, 'amp': amp, 'seed': seed, 'par': par})
+                    if amp == 1:
+                        for par in PARAMS_LOW:
+                            out.append({'n': n, 'shape': sh, 'noise': noise, 'amp': amp, 'seed': seed, 'par': par})
                     # the series handed to the diagnostics object is what counts: other parameter fields (a small
                     # n_pretest_max, iroas, min_corr, rho_max, n_designs ...) must not enter the required impact
                     for extra in ({'n_pretest_max': 3}, {'n_pretest_max': n - 1, 'rho_max': 0.9, 'min_corr': 0.95},
@@ -154,11 +161,12 @@ def run_case(case):
     grid = [0.0, 0.3, 0.6, 0.9, 0.99, 0.995]
     vals = [d.estimate_required_impact(r) for r in grid]
     neg = [d.estimate_required_impact(-r) for r in grid]
-    if not all(a > b for a, b in zip(vals, vals[1:])) or not all(math.isclose(a, b, rel_tol=1e-12) for a, b in zip(vals, neg)):
+    sgn = 1.0 if (tq_s + tq_p) > 0 else -1.0      # the magnitude decreases; with a negative quantile sum the values are negative
+    if not all(sgn * a > sgn * b for a, b in zip(vals, vals[1:])) or not all(math.isclose(a, b, rel_tol=1e-12) for a, b in zip(vals, neg)):
         add('not-decreasing-in-abs-corr', '%s: estimate_required_impact over %s = %s / negative %s' % (tag, grid, vals, neg))
     seen = set()
     viol = [v for v in viol if not (v['key'] in seen or seen.add(v['key']))]
-    return {'viol': viol, 'nontrivial': True, 'outcome': [n, nt, round(math.log10(RI), 0)], 'counts': {'tbr_fits': 1}}
+    return {'viol': viol, 'nontrivial': True, 'outcome': [n, nt, round(math.log10(abs(RI)), 0), RI > 0], 'counts': {'tbr_fits': 1}}
 
 
 def run(tier, seed, jobs):
